@@ -38,3 +38,21 @@ MUTANTS = [
     dict(name="c02_pcov_take_wrong", prop="C02", file=SEL,
          old="            - 2 * np.take(self.pcovr_distance_, last_selected, axis=self._axis)", new="            - np.take(self.pcovr_distance_, last_selected, axis=self._axis)"),
 ]
+
+MUTANTS += [
+    # ---------------------------------------------------------------- C06
+    dict(name="c06_overprune_half", prop="C06", file=VOR, old="            ) * 0.25\n", new="            ) * 0.5\n"),
+    dict(name="c06_overprune_one", prop="C06", file=VOR, old="            ) * 0.25\n", new="            ) * 1.0\n"),
+    dict(name="c06_no_dsl_pad", prop=["C06", "C08"], file=VOR,
+         old='        self.dSL_ = np.pad(self.dSL_, (0, n_pad), "constant", constant_values=0)', new='        pass'),
+    dict(name="c06_vlocation_not_updated", prop="C06", file=VOR,
+         old="        if len(updated_points) > 0:\n            self.vlocation_of_idx[updated_points] = self.n_selected_", new="        if len(updated_points) > 0 and self.n_selected_ < 2:\n            self.vlocation_of_idx[updated_points] = self.n_selected_"),
+    dict(name="c06_sparse_newdist_zeros", prop="C06", file=VOR,
+         old="                self.new_dist_ = self.hausdorff_.copy()\n", new="                self.new_dist_ = np.zeros_like(self.hausdorff_)\n"),
+    dict(name="c06_prune_test_flipped", prop="C06", file=VOR,
+         old="                self.dSL_[self.vlocation_of_idx] < self.hausdorff_", new="                self.dSL_[self.vlocation_of_idx] > self.hausdorff_"),
+    dict(name="c06_bug_only_at_low_switch", prop="C06", file=VOR,
+         old="                self.new_dist_[active_points] = (\n                    self.norms_[active_points]", new="                if self.full_fraction < 0.06:\n                    active_points = active_points[1:]\n                self.new_dist_[active_points] = (\n                    self.norms_[active_points]"),
+    dict(name="c06_sparse_skips_last_active", prop="C06", file=VOR,
+         old="                self.new_dist_[active_points] = (\n                    self.norms_[active_points]", new="                active_points = active_points[:-1] if len(active_points) > 3 else active_points\n                self.new_dist_[active_points] = (\n                    self.norms_[active_points]"),
+]
